@@ -140,6 +140,8 @@ def band_case(r, i, tier, want_exact):
     q = r.random()
     if q < 0.03:
         size = 0
+    elif q < 0.06:
+        size = -r.choice([1, 1, 2, 7, 100])      # outside "sample_size >= 1": the code returns every retained word
     elif q < 0.2:
         size = 1
     elif q < 0.6:
@@ -240,7 +242,7 @@ def band_check(c, impl, model):
         if f < cv:
             probs.append('returned word %r has frequency %s below the cutoff %s' % (w, f, cv))
     kept = [f for f in pop.values() if f >= cv]
-    if all(f > 0 for f in kept) and len(sample) > c['sample_size']:
+    if all(f > 0 for f in kept) and c['sample_size'] >= 1 and len(sample) > c['sample_size']:
         probs.append('sample has %d words, sample_size is %d' % (len(sample), c['sample_size']))
     if is_exact(c) or c.get('fraction'):
         msample = {w: Fraction(f) for w, f in model['sample']}
